@@ -60,6 +60,19 @@ func c09(c *Ctx) {
 					if leadsOnlyToReturn(s) {
 						continue
 					}
+					// … and so are exits taken because a call failed (`err != nil`): the error is
+					// reported after the loop (C09.errC-shape judges that part)
+					if iff, ok := b.Instrs[len(b.Instrs)-1].(*ssa.If); ok {
+						if bo, ok := iff.Cond.(*ssa.BinOp); ok && (bo.Op == token.NEQ && k == 0 || bo.Op == token.EQL && k == 1) {
+							x, y := bo.X, bo.Y
+							if isNilConst(x) {
+								x, y = y, x
+							}
+							if isNilConst(y) && isErrorType(x.Type()) {
+								continue
+							}
+						}
+					}
 					nexit++
 					iff, ok := b.Instrs[len(b.Instrs)-1].(*ssa.If)
 					key := R.Key("C09.page-exit", shortFn(a.fetchEvents), "page-loop-exit")
@@ -108,7 +121,7 @@ func c09(c *Ctx) {
 			R.Check("C09.errC-shape", R.Key("C09.errC-shape", shortFn(f), "send:errC"), c.rel(p.Pos(sd.Instr.Pos())), "a send on the error channel is immediately followed by return (the channel is unbuffered with a single reader; a second send blocks the goroutine forever)", ok, why)
 		}
 	}
-	R.Floor("C09.errC-shape", n, 6)
+	R.Floor("C09.errC-shape", n, 4)
 
 	// ---- C09.optional-deref --------------------------------------------------------------------
 	c09optional(c, a)
@@ -467,7 +480,7 @@ func c09isolate(c *Ctx, a *alphAnchors) {
 				!o.content, "the error sent can originate in event content: "+strings.Join(dedupStrings(why), "; ")+" — the watcher restarts and its cursor is re-initialised to the current event count, dropping events not yet fetched")
 		}
 	}
-	R.Floor("C09.isolate.errC-sends", n, 6)
+	R.Floor("C09.isolate.errC-sends", n, 4)
 }
 
 func dedupStrings(in []string) []string {
